@@ -21,7 +21,8 @@ from dataclasses import is_dataclass, fields as dc_fields, MISSING
 from enum import Enum
 from typing import Any, Dict, List, Optional, Tuple
 
-REPO_ROOT = "/repo"
+import os as _os
+REPO_ROOT = _os.path.realpath(_os.environ.get("VERIF_REPO", "/repo"))
 
 
 class LoaderError(Exception):
